@@ -110,6 +110,7 @@ type c10Env struct {
 	root   hash.Hash
 	prefix []byte // JSON prefix for current_case.json
 	skipped *int
+	warnings int // journal bootstrap warnings of the last open
 }
 
 func c10Mutate(orig []byte, off int, variant string) ([]byte, bool) {
@@ -141,7 +142,8 @@ func (e *c10Env) open(ctx context.Context) (*NomsBlockStore, error) {
 	if e.c.Backend == "local" {
 		return newLocalStore(ctx, constants.FormatDoltString, e.dir, 1<<20, 1<<20, q, e.c.Mmap)
 	}
-	st, err := NewLocalJournalingStore(ctx, constants.FormatDoltString, e.dir, q, e.c.Mmap, func(error) {})
+	e.warnings = 0
+	st, err := NewLocalJournalingStore(ctx, constants.FormatDoltString, e.dir, q, e.c.Mmap, func(error) { e.warnings++ })
 	if err != nil {
 		return nil, err
 	}
@@ -329,8 +331,11 @@ func (e *c10Env) runVariant(off int, variant string, mutated []byte) (outcome, v
 	case silentAbsent > 0:
 		// table files and archives carry no index checksum: a flipped address byte makes a chunk
 		// unreachable without any way for the reader to notice. Not misread data; recorded.
+		if c.Kind == "journal" && e.warnings > 0 {
+			return "absent_after_warning", "" // the bootstrap reported the damage through its warnings callback
+		}
 		if c.Kind == "journal" || c.Kind == "manifest" {
-			return "silent_absent", fmt.Sprintf("open and reads succeeded without any error, yet %d acknowledged chunk(s) are reported absent", silentAbsent)
+			return "silent_absent", fmt.Sprintf("open and reads succeeded without any error or warning, Root() = %s (commit #%d of %d), yet %d chunk(s) acknowledged at or before that commit are reported absent", root, floor, len(c.Commits), silentAbsent)
 		}
 		return "silent_absent", ""
 	default:
